@@ -175,3 +175,12 @@ add('M41', x4('FORTRAN/c_fortran_?gssv.c', "        SUPERLU_FREE (LUfactors->U);
 add('M41b', x4('FORTRAN/c_fortran_?gssv.c', "Create_Dense_Matrix(&B, *n, *nrhs, b, *ldb,", "Create_Dense_Matrix(&B, *n, *nrhs, b, *n,"), ['C20'], note='leading dimension of b ignored')
 add('M41c', x4('FORTRAN/c_fortran_?gssv.c', "	LUfactors->perm_c = perm_c;\n	LUfactors->perm_r = perm_r;", "	LUfactors->perm_c = perm_r;\n	LUfactors->perm_r = perm_c;"), ['C20'], note='permutations swapped in the handle')
 add('M37', [('SRC/util.c', "    SUPERLU_FREE ( ((SCformat *)A->Store)->col_to_sup );\n", "")], ['C20', 'C19'], note='Destroy_SuperNode_Matrix forgets col_to_sup')
+
+# ---------------------------------------------------------------- C16
+add('M30', x4('SRC/?readhb.c', "	    where[i++] = item - 1;", "	    where[i++] = item;"), ['C16'], note='HB indices stored 1-based')
+add('M31', x4('SRC/?readMM.c', "	    --row[nz];\n	    --col[nz];", "	    --row[nz];"), ['C16'], note='column indices of a 1-based Matrix Market file not converted')
+add('M31b', x4('SRC/?readhb.c', "    fscanf(fp, \"%20c\", buf);\n    ?ParseFloatFormat", "    fscanf(fp, \"%120c\", buf);\n    ?ParseFloatFormat"), ['C16'], note='field wider than the line buffer')
+add('M31c', [('SRC/dreadMM.c', "	fscanf(fp, \"%d%d%lf\\n\", &row[nz], &col[nz], &val[nz]);", "	fscanf(fp, \"%d%d%f\\n\", &row[nz], &col[nz], &val[nz]);"),
+             ('SRC/sreadMM.c', "	fscanf(fp, \"%d%d%f\\n\", &row[nz], &col[nz], &val[nz]);", "	fscanf(fp, \"%d%d%lf\\n\", &row[nz], &col[nz], &val[nz]);")], ['C16'],
+    note='%f / %lf swapped between the real precisions (the sibling rule normalises the length modifier)')
+add('M31d', x4('SRC/?readMM.c', "    if ( !(col = int32Malloc(new_nonz)) )", "    if ( !(col = int32Malloc(*nonz)) )"), ['C16'], note='col[] too small for the symmetric expansion')
